@@ -8,6 +8,7 @@ import (
 	"fmt"
 	"net"
 	"sort"
+	"sync/atomic"
 	"time"
 
 	"github.com/TheManticoreProject/Manticore/network/netbios/nbtns"
@@ -27,7 +28,7 @@ const (
 )
 
 var ProbeNames = map[int]string{
-	PPreemptInCritical:        "clock_jump_or_preemption_inside_run",
+	PPreemptInCritical:        "run_with_preemption_inside_table_code",
 	PSweepRemoved:             "sweep_removed_a_name",
 	PSnapshotOutlivedMutation: "query_result_outlived_later_mutation_of_same_name",
 	PScribbled:                "caller_overwrote_a_query_result",
@@ -68,6 +69,7 @@ type snapshot struct {
 	copy [][]byte
 	in   In
 	dead bool
+	at   uint64
 }
 
 type client struct {
@@ -123,6 +125,7 @@ func apply(ns *nbtns.NetBIOSNameServer, c *client, in In, scribble bool) Out {
 			s.dead = true
 			rt.Probe(PScribbled)
 		}
+		s.at = rt.Seq()
 		c.snaps = append(c.snaps, s)
 		return o
 	case OpRelease:
@@ -146,14 +149,23 @@ func genOp(ttl [3]int64, mix int) In {
 	switch mix {
 	case 0: // registration heavy
 		k = [...]OpKind{OpRegister, OpQuery, OpRegister, OpRegister, OpQuery, OpRelease, OpRefresh, OpMark, OpClean}[kd]
-	case 1: // churn
-		k = [...]OpKind{OpRegister, OpQuery, OpRelease, OpRelease, OpQuery, OpRegister, OpRefresh, OpClean, OpRelease}[kd]
+	case 1, 3, 4: // churn
+		k = [...]OpKind{OpRegister, OpQuery, OpRelease, OpRelease, OpQuery, OpRegister, OpRefresh, OpRegister, OpRelease}[kd]
 	default:
 		k = [...]OpKind{OpRegister, OpQuery, OpRelease, OpRefresh, OpMark, OpClean, OpRegister, OpQuery, OpRelease}[kd]
 	}
 	in := In{Kind: k}
 	if k == OpClean {
 		return in
+	}
+	switch mix {
+	case 3: // hot key: everything on one name, two addresses
+		nm, ad = 0, ad%2
+	case 4: // hot group: group registrations / releases of two names dominate
+		nm = nm % 2
+		if k == OpRegister {
+			gr = 1
+		}
 	}
 	in.Name = nm
 	if k == OpRegister {
@@ -195,7 +207,8 @@ func Run(seed uint64, index int64, o hx.Opts) *hx.Result {
 		if z := hx.G(24); z < 3 {
 			ttl[z] = 0
 		}
-		mix := hx.G(3)
+		mix := hx.G(5)
+		mirror := hx.G(4) == 0 // every client runs the same operation list (maximal contention on identical operations)
 		// fixed-width generation: all candidate operations first, the counts afterwards
 		const maxClients, maxOps, maxJumps = 4, 12, 4
 		var pool [maxClients][maxOps]In
@@ -216,7 +229,11 @@ func Run(seed uint64, index int64, o hx.Opts) *hx.Result {
 			}
 			n := 1 + hx.G(lim)
 			if c < nClients {
-				clients = append(clients, &client{id: c, ops: append([]In(nil), pool[c][:n]...)})
+				src := c
+				if mirror {
+					src = 0
+				}
+				clients = append(clients, &client{id: c, ops: append([]In(nil), pool[src][:n]...)})
 			}
 		}
 		nJumps := hx.G(maxJumps + 1)
@@ -300,6 +317,23 @@ func Run(seed uint64, index int64, o hx.Opts) *hx.Result {
 	if overlap {
 		w.Stats.Probes[POverlap]++
 	}
+	if w.Stats.Preemptions > 0 {
+		w.Stats.Probes[PPreemptInCritical]++
+	}
+	for _, cl := range clients {
+		for _, sn := range cl.snaps {
+			if sn.dead {
+				continue
+			}
+			for _, h := range hist {
+				if h.Call > sn.at && h.Out.OK && h.In.Name == sn.in.Name && (h.In.Kind == OpRegister || h.In.Kind == OpRelease) {
+					w.Stats.Probes[PSnapshotOutlivedMutation]++
+					break
+				}
+			}
+		}
+	}
+	expBefore := atomic.LoadInt64(&ExpiredMet)
 	res.NonTrivial = overlap || (clock != nil && len(clock.log) > 0) || len(hist) >= 3
 
 	if v == nil {
@@ -315,6 +349,9 @@ func Run(seed uint64, index int64, o hx.Opts) *hx.Result {
 		verdict, culprit := checkLinearizable(hist, startNow, seen)
 		for k := range seen {
 			res.States = append(res.States, k)
+		}
+		if atomic.LoadInt64(&ExpiredMet) > expBefore {
+			w.Stats.Probes[PExpiredSeen]++
 		}
 		switch verdict {
 		case porcupine.Illegal:
